@@ -1,0 +1,63 @@
+//go:build verif
+
+// Contracts for the deductive checker in /verif (govc). Comment-only; ignored without the
+// "verif" build tag.
+//
+// Account objects are modelled by ghost maps keyed by the interface value: acct.coins[a] are the
+// coins held by the in-memory account object a, acct.addr[a] its address, acct.id[a] a serial
+// number making every decoded/created object distinct from earlier ones. These interface
+// contracts are the specification every implementation (BaseAccount, ModuleAccount,
+// MultiSigAccount) is expected to meet; they are assumed at call sites.
+
+package exported
+
+//@ ghost acct.coins (Array Iface Coins)
+//@ ghost acct.addr (Array Iface Bytes)
+//@ ghost acct.pk (Array Iface Iface)
+//@ ghost acct.id (Array Iface Int)
+//@ ghost acct.next Int
+
+//@ iface func (a Account) GetAddress() (r sdk.Address)
+//@   mode value
+//@   ensures r == acct.addr[a]
+//@ iface func (a Account) GetCoins() (r sdk.Coins)
+//@   mode value
+//@   ensures r == acct.coins[a]
+//@ iface func (a Account) SpendableCoins(blockTime time.Time) (r sdk.Coins)
+//@   mode value
+//@   ensures r == acct.coins[a]
+//@ iface func (a Account) SetCoins(c sdk.Coins) (err error)
+//@   mode value
+//@   modifies acct.coins[a]
+//@   ensures err == nil && acct.coins[a] == c
+//@ iface func (a Account) GetPubKey() (r crypto.PublicKey)
+//@   mode value
+//@   ensures r == acct.pk[a]
+
+//@ iface func (a ModuleAccountI) GetAddress() (r sdk.Address)
+//@   mode value
+//@   ensures r == acct.addr[a]
+//@ iface func (a ModuleAccountI) GetCoins() (r sdk.Coins)
+//@   mode value
+//@   ensures r == acct.coins[a]
+//@ iface func (a ModuleAccountI) SetCoins(c sdk.Coins) (err error)
+//@   mode value
+//@   modifies acct.coins[a]
+//@   ensures err == nil && acct.coins[a] == c
+//@ iface func (a ModuleAccountI) HasPermission(p string) (r bool)
+//@   mode value
+//@   ensures r == acct_perm(a, p)
+
+// Supply values are immutable; sup_total(s) is the total of a SupplyI value.
+//@ iface func (s SupplyI) GetTotal() (r sdk.Coins)
+//@   mode value
+//@   ensures r == sup_total(s)
+//@ iface func (s SupplyI) Inflate(amount sdk.Coins) (r SupplyI)
+//@   mode value
+//@   requires s != nil
+//@   ensures r != nil && (forall d Str :: amt(sup_total(r), d) == amt(sup_total(s), d) + amt(amount, d))
+//@ iface func (s SupplyI) Deflate(amount sdk.Coins) (r SupplyI)
+//@   mode value
+//@   requires s != nil
+//@   panics string when exists d Str :: amt(sup_total(s), d) < amt(amount, d)
+//@   ensures r != nil && (forall d Str :: amt(sup_total(r), d) == amt(sup_total(s), d) - amt(amount, d))
